@@ -51,7 +51,7 @@ def project(m):
         return {"k": "fn", "tok": tok, "args": args}
     if isinstance(m, Header):
         name = m.name
-        base = f'#"{name}"' if " " in f"{name}" else f"#{name}"
+        base = f'#"{name}"' if (" " in f"{name}" or "." in f"{name}") else f"#{name}"
         return {"k": "hdr", "tok": base + "".join("." + q for q in m.qualifiers), "args": []}
     if isinstance(m, Variable):
         return {"k": "var", "tok": "@" + m.name + "".join("." + q for q in m.qualifiers), "args": []}
